@@ -183,9 +183,9 @@ def run(rep, tier, rng):
     # ---------------- valid bodies x mutations ----------------
     docs = []
     small = [d for d in S.small_docs(max_nodes=3) if d[0] == "agg"]
-    for d in (small if thorough else rng.sample(small, 40)):
+    for d in (small if thorough else rng.sample(small, 30)):
         docs.append((d, 200, 6))
-    for _ in range(900 if thorough else 45):
+    for _ in range(900 if thorough else 32):
         docs.append((S.rand_doc(rng, rng.randint(3, 16), rng.randint(1, 5)), 120 if thorough else 40, 8 if thorough else 4))
     for _ in range(100 if thorough else 4):
         docs.append((S.rand_doc(rng, rng.randint(40, 120), 10, tags=rng.sample(S.TAG_POOL, 6)), 40, 12 if thorough else 5))
